@@ -71,6 +71,8 @@ impl<const BITS: usize, const LIMBS: usize> Uint<BITS, LIMBS> {
 
     #[inline]
     fn randomize_with_impl<R: rand::RngCore + ?Sized>(&mut self, rng: &mut R) {
+        #[cfg(feature = "recmo_uint_verif")]
+        crate::verif_hooks::hit(42);
         rng.fill(&mut self.limbs[..]);
         self.apply_mask();
     }
